@@ -74,6 +74,9 @@ func decodeString(src string, pos int) (ret int, v string) {
 		return ret, v
 	}
 
+	if loneSurrogate(src[pos:ret]) {
+		return -int(types.ERR_INVALID_CHAR), ""
+	}
 	vv, ok := unquoteBytes(rt.Str2Mem(src[pos:ret]))
 	if !ok {
 		return -int(types.ERR_INVALID_CHAR), ""
@@ -83,8 +86,58 @@ func decodeString(src string, pos int) (ret int, v string) {
 	return ret, rt.Mem2Str(vv)
 }
 
+// loneSurrogate reports whether a string literal holds a \uXXXX escape of a surrogate that is not part of a pair.
+// NOTICE: encoding/json.unquoteBytes replaces such an escape by U+FFFD, the native decoder rejects the literal
+func loneSurrogate(lit string) bool {
+	hex4 := func(i int) int {
+		if i+4 > len(lit) {
+			return -1
+		}
+		v := 0
+		for _, c := range []byte(lit[i : i+4]) {
+			switch {
+			case c >= '0' && c <= '9':
+				v = v<<4 | int(c-'0')
+			case c >= 'a' && c <= 'f':
+				v = v<<4 | int(c-'a'+10)
+			case c >= 'A' && c <= 'F':
+				v = v<<4 | int(c-'A'+10)
+			default:
+				return -1
+			}
+		}
+		return v
+	}
+	for i := 0; i+1 < len(lit); i++ {
+		if lit[i] != '\\' {
+			continue
+		}
+		i++
+		if lit[i] != 'u' {
+			continue
+		}
+		r := hex4(i + 1)
+		switch {
+		case r >= 0xDC00 && r <= 0xDFFF:
+			return true
+		case r >= 0xD800 && r <= 0xDBFF:
+			if i+6 < len(lit) && lit[i+5] == '\\' && lit[i+6] == 'u' {
+				if lo := hex4(i + 7); lo >= 0xDC00 && lo <= 0xDFFF {
+					i += 10
+					continue
+				}
+			}
+			return true
+		}
+	}
+	return false
+}
+
 // Unquote decodes a quoted JSON string literal (JSON escapes, surrogate pairs included)
 func Unquote(quoted string) (string, bool) {
+	if loneSurrogate(quoted) {
+		return "", false
+	}
 	v, ok := unquoteBytes(rt.Str2Mem(quoted))
 	if !ok {
 		return "", false
